@@ -198,5 +198,51 @@ theorem rest_ne_nil_of_pop (hall : AllStk (fun l => botKind l = .base) s.thr)
     (hs : norm (s.thr t) = f :: rest) (hk : f.kind ≠ .base) : rest ≠ [] :=
   (botKind_pop (hs ▸ hall t) hk).1
 
+/-! ## the `zeroPath` mark of a bulk call -/
+
+/-- a frame marked `zeroPath` is a bulk-submission frame whose tag has been cleared: the mark is only
+ever set by an `inline0` of a bulk frame, which clears `fq` in the same step, and nothing sets `fq`
+of an existing frame -/
+def ZpOK (l : List Frame) : Prop := ∀ g ∈ l, g.zeroPath = true → g.fq = false ∧ g.kind = .bulk
+
+theorem ZpOK_nil : ZpOK [] := fun _ h => by cases h
+
+theorem ZpOK_cons {a : Frame} {l : List Frame} :
+    ZpOK (a :: l) ↔ (a.zeroPath = true → a.fq = false ∧ a.kind = .bulk) ∧ ZpOK l := by
+  simp [ZpOK]
+
+theorem ZpOK_base : ZpOK [{}] := by simp [ZpOK]
+
+theorem zp_upd {thr : Nat → List Frame} (hall : AllStk ZpOK thr) (t : Nat) {l : List Frame}
+    (hl : ZpOK l) : AllStk ZpOK (upd thr t l) := by
+  refine AllStk_upd hall t l ?_
+  cases l with
+  | nil => exact ZpOK_base
+  | cons a l => exact hl
+
+theorem zp_step (hall : AllStk ZpOK s.thr) (hs : norm (s.thr t) = f :: rest)
+    (h : Step s t f rest e s') : AllStk ZpOK s'.thr := by
+  have hb : ZpOK (f :: rest) := hs ▸ hall t
+  obtain ⟨hf, hrest⟩ := ZpOK_cons.1 hb
+  cases h
+  case quiesce | rings | ctor | resizeBegin | resizeEnd | dtorBegin | dtorEnd | tsCancel |
+      tsZeroOther | tsCapture =>
+    exact hall
+  case retSched | retBulk | endPlain | retWait | retCancel | retResize | retPoolDtor =>
+    exact zp_upd hall t hrest
+  case endPkNil id hk hid hst hpk hr =>
+    exact zp_upd hall t (ZpOK_cons.2 ⟨by simp, ZpOK_nil⟩)
+  case endPkCons id g rest' hk hid hst hpk hr hg =>
+    subst hr
+    obtain ⟨hg', hrest'⟩ := ZpOK_cons.1 hrest
+    exact zp_upd hall t (ZpOK_cons.2 ⟨hg', hrest'⟩)
+  case inline0 hk hp hn =>
+    exact zp_upd hall t (ZpOK_cons.2 ⟨fun h => ⟨rfl, by simpa using h⟩, hrest⟩)
+  case callSched | callBulk | callWait | callCancel | callResize | callPoolDtor =>
+    exact zp_upd hall t (ZpOK_cons.2 ⟨by simp, hb⟩)
+  case beginTook | beginGuarded | beginInlPool | beginInlGuarded | beginInlTs =>
+    exact zp_upd hall t (ZpOK_cons.2 ⟨by simp, ZpOK_cons.2 ⟨hf, hrest⟩⟩)
+  all_goals exact zp_upd hall t (ZpOK_cons.2 ⟨hf, hrest⟩)
+
 end
 end Dispenso.Sched
